@@ -91,7 +91,7 @@ EXT = {
  'C16': ('block tiling (finite fallback), readers rebuilt per call, properties derived from gRank store nothing', 'finite case analysis on extracted index expressions'),
  'C17': ('ultraspherical conversion chain, cached results never changed in place, kwargs reach the row builders unchanged, caches of plans keyed completely, no magnitude threshold in eliminate_zeros, single source of the scaled wavenumbers, symbolic S(p) D(p) = 1 for the Fourier operators', 'memo-pattern analysis'),
  'C18': ('Kronecker dispatch by abstract interpretation, centred layout (finite fallback), read-only defaults table, cache keys complete and hits guarded, offsets travel with the weights, every popped option used', 'abstract interpretation over tensor-factor tuples; memo-pattern analysis'),
- 'C19': ('per-level dicts, restart-counter coverage (finite case analysis), inventories of sweeper / convergence-controller / hook instance state (tables B6-B8; found F23, F26, F27), problem attributes never read back, life-cycle overrides call super; a reset level gets the constructor's expressions', 'inventories with reason tables; finite case analysis'),
+ 'C19': ('per-level dicts, restart-counter coverage (finite case analysis), inventories of sweeper / convergence-controller / hook instance state (tables B6-B8; found F23, F26, F27), problem attributes never read back, life-cycle overrides call super; a reset level gets the expressions of the constructor', 'inventories with reason tables; finite case analysis'),
  'C20': ('exact rejection guards, strict registry look-ups, per-class allow-lists, reference table of read-only declarations, dependency set-ups, look-ups in the declaring section, who may write its own parameters, registries only grow', 'reference tables; contradiction rule'),
 }
 
